@@ -11,7 +11,12 @@ tie    : T-gen (the facts ARE the source).  A pair the translator's truth table 
 oracle : PARTIAL BY NATURE - the real build matrix (cargo/rustc do the building): `cargo check` of both crates and
          `cargo test` of the derive's own test file for single features (and pairs in the thorough tier), with and
          without `std`, from the working tree (`--manifest-path /repo/Cargo.toml --offline --locked`, private target
-         dirs), plus regression crates built against the real macro under a single feature.  A configuration FAILS on a
+         dirs), plus regression crates built against the real macro under a single feature, plus an API-SURFACE
+         PROBE per configuration (lib/c20_api.py): a generated consumer crate that uses every derive of the enabled
+         features incl. the documented error paths, asserts the trait impls of every exported helper type (expected
+         list measured on the `full` build) and names every derive / re-exported trait in both namespaces; and a NEGATIVE
+         probe crate per configuration: every derive (three paths) / trait / helper type of a feature that the facade's
+         feature table does not switch on must NOT resolve (one `use .. as _;` per line, each line must be an error).  A configuration FAILS on a
          build error or a failing test (the property text says "builds without errors").  Warnings are not errors:
          configurations whose warnings differ from those of the `full` build are recorded in the evidence
          (coverage.warning_only_configs) as observations only.
@@ -23,7 +28,7 @@ import shutil
 import subprocess
 import time
 
-from lib import common, c20_cfg
+from lib import common, c20_cfg, c20_api
 
 TRUSTED = [
     "Coq 8.16.1 kernel + vm_compute (coqc full .vo build); no axioms (Print Assumptions: closed)",
@@ -63,6 +68,16 @@ def cargo_cmd(kind, feats, std, test=None):
 
 
 def run_job(job, worker):
+    r = _run_job(job, worker)
+    if r["rc"] != 0 and not any(m["level"] == "error" for m in r["messages"]) and r["kind"] != "test":
+        # a failure without any compiler diagnostic (resource exhaustion, lock contention ...): once more
+        r2 = _run_job(job, worker)
+        r2["retried"] = r["stderr_tail"][-300:]
+        return r2
+    return r
+
+
+def _run_job(job, worker):
     env = dict(common.CARGO_ENV, CARGO_TARGET_DIR=os.path.join(TARGET, "w%d" % worker), CARGO_TERM_COLOR="never")
     env.pop("RUSTFLAGS", None)
     env["CARGO_BUILD_JOBS"] = str(max(1, common.NCPU // WORKERS))
@@ -364,136 +379,272 @@ def run(tier, seed, replay):
             chk.violation("translator-control-failed", {"error": str(e)[-1500:]},
                           "the mutated-source controls could not be evaluated", no_input=True)
 
-    # ---- the build matrix
-    tests_of = {}
-    manifest_tests = x["facade_tests"] if x is not None else []
-    for (name, path, req) in manifest_tests:
-        if len(req) == 1 and req[0] in feats:
-            tests_of.setdefault(req[0], []).append(name)
-    jobs = []
+    # ---- the real-build stage, in phases: the tier's matrix first; if a proof obligation is broken and that phase found no
+    #      failing input, the thorough matrix is run as well (the widened search)
+    phases = [tier == "thorough"]
+    done_cmds = set()
+    tot = {"results": [], "n_fail": 0, "n_api": 0, "warning_only": [], "reg": []}
+    api_base = {}
+    api_meta = {}
+    baseline = set()
+    for thorough_phase in phases:
+        # ---- the build matrix
+        tests_of = {}
+        manifest_tests = x["facade_tests"] if x is not None else []
+        for (name, path, req) in manifest_tests:
+            if len(req) == 1 and req[0] in feats:
+                tests_of.setdefault(req[0], []).append(name)
+        jobs = []
 
-    def add(kind, fs, std, test=None, why=""):
-        jobs.append({"kind": kind, "features": list(fs), "std": std, "test": test, "why": why,
-                     "cmd": cargo_cmd(kind, fs, std, test)})
+        def add(kind, fs, std, test=None, why=""):
+            jobs.append({"kind": kind, "features": list(fs), "std": std, "test": test, "why": why,
+                         "cmd": cargo_cmd(kind, fs, std, test)})
 
-    if replay:
-        r = json.load(open(replay))["replay"]
-        if "cmd" in r:
-            jobs.append({"kind": r.get("kind", "check"), "features": r.get("features", []), "std": r.get("std", True),
-                         "test": r.get("test"), "why": "replay", "cmd": r["cmd"]})
-    else:
-        widen = getattr(chk, "proof_broken", False)
-        for f in feats:
-            add("check-impl", [f], True, why="single")
-            add("check", [f], True, why="single")
-        # feature sets (<= 2 derive features) that switch a crate-level lint gate (`#![cfg_attr(P, allow(..))]`)
-        for gate in lint_gates():
-            add("check-impl", gate, True, why="lint-gate")
-        if tier == "quick" and not widen:
-            for f in rng.sample(feats, 8):
-                add("check", [f], False, why="single-nostd-sample")
-            tf = [f for f in feats if f in tests_of]
-            for f in rng.sample(tf, min(4, len(tf))):
-                add("test", [f], True, tests_of[f][0], why="test-sample")
-            for f in rng.sample(tf, min(2, len(tf))):
-                add("test", [f], False, tests_of[f][0], why="test-nostd-sample")
-            for pr in rng.sample(list(itertools.combinations(feats, 2)), 8):
-                add("check", list(pr), rng.random() < 0.5, why="pair-sample")
+        if replay:
+            r = json.load(open(replay))["replay"]
+            if "cmd" in r:
+                jobs.append({"kind": r.get("kind", "check"), "features": r.get("features", []), "std": r.get("std", True),
+                             "test": r.get("test"), "why": "replay", "cmd": r["cmd"]})
         else:
             for f in feats:
-                add("check", [f], False, why="single-nostd")
-                for t in tests_of.get(f, []):
-                    add("test", [f], True, t, why="test")
-                    add("test", [f], False, t, why="test-nostd")
-            for pr in itertools.combinations(feats, 2):
-                add("check", list(pr), True, why="pair")
-                add("check", list(pr), False, why="pair-nostd")
-    chk.log("%d builds (%s)" % (len(jobs), tier))
+                add("check-impl", [f], True, why="single")
+                add("check", [f], True, why="single")
+            # feature sets (<= 2 derive features) that switch a crate-level lint gate (`#![cfg_attr(P, allow(..))]`)
+            for gate in lint_gates():
+                add("check-impl", gate, True, why="lint-gate")
+            if not thorough_phase:
+                for f in rng.sample(feats, 8):
+                    add("check", [f], False, why="single-nostd-sample")
+                tf = [f for f in feats if f in tests_of]
+                for f in rng.sample(tf, min(4, len(tf))):
+                    add("test", [f], True, tests_of[f][0], why="test-sample")
+                for f in rng.sample(tf, min(2, len(tf))):
+                    add("test", [f], False, tests_of[f][0], why="test-nostd-sample")
+                for pr in rng.sample(list(itertools.combinations(feats, 2)), 8):
+                    add("check", list(pr), rng.random() < 0.5, why="pair-sample")
+            else:
+                for f in feats:
+                    add("check", [f], False, why="single-nostd")
+                    for t in tests_of.get(f, []):
+                        add("test", [f], True, t, why="test")
+                        add("test", [f], False, t, why="test-nostd")
+                for pr in itertools.combinations(feats, 2):
+                    add("check", list(pr), True, why="pair")
+                    add("check", list(pr), False, why="pair-nostd")
+        # ---- API-surface probes: one generated consumer crate per configuration (see lib/c20_api.py)
+        if x is not None and not replay:
+            t_api = time.time()
 
-    # baseline: warnings of the `full` build (toolchain drift is not a property of a feature subset)
-    base_jobs = [run_job({"kind": "check-impl", "features": ["full"], "std": True, "cmd": cargo_cmd("check-impl", ["full"], True)}, 0),
-                 run_job({"kind": "check", "features": ["full"], "std": True, "cmd": cargo_cmd("check", ["full"], True)}, 0)]
-    baseline = set()
-    for b in base_jobs:
-        if b["rc"] != 0:
-            chk.violation("build:full", {"cmd": " ".join(b["cmd"]), "stderr": b["stderr_tail"], "messages": b["messages"][:5]},
-                          "the `full` configuration itself does not build")
-        for m in b["messages"]:
-            baseline.add(msg_key(m))
-    chk.log("baseline: %d warnings under `full`" % len(baseline))
+            def api_job(fs, std, baseline, why, tag):
+                src, probes = c20_api.build_source(x, fs, std, baseline=baseline)
+                name = "c20_api_%s_%s%s" % ("_".join(fs) if len(fs) <= 3 else "full", "std" if std else "nostd", tag)
+                d = common.make_crate(name, src, features=tuple(fs) + (("std",) if std else ()), default_features=False)
+                api_meta[name] = {"probes": probes, "src": src, "dir": d}
+                return {"kind": "api", "features": list(fs), "std": std, "test": None, "why": why, "name": name,
+                        "cmd": ["cargo", "check", "--manifest-path", os.path.join(d, "Cargo.toml"), "--offline",
+                                "--message-format=json"]}
 
-    # regression crates: the real macro under ONE feature, on inputs that reach templates naming facade items
-    reg_results = []
-    if not replay:
-        for (name, rfeats, rstd, src, is_bin) in REGRESSION_CRATES:
-            t0 = time.time()
-            d = common.make_crate("c20_reg_" + name, src, features=tuple(rfeats) + (("std",) if rstd else ()),
-                                  default_features=False, bin=is_bin)
-            rc, out = common.cargo(d, ["check", "--quiet"], target_dir=os.path.join(TARGET, "reg"))
-            common.cleanup_scratch("c20_reg_" + name)
-            chk.count(("regression", name), True)
-            chk.bump("regression-crate")
-            reg_results.append({"name": name, "features": rfeats, "std": rstd, "rc": rc, "wall_s": round(time.time() - t0, 1)})
-            if rc != 0:
-                chk.violation("error:regression:" + name,
-                              {"features": rfeats, "std": rstd, "main_rs": src, "output": out[-2500:],
-                               "cmd": "cargo check in a crate with derive_more = { path = \"/repo\", default-features = false, "
-                                      "features = %s }" % (list(rfeats) + (["std"] if rstd else []))},
-                              "a crate using only feature(s) %s does not build: %s" % (rfeats, out[-300:]))
+            def neg_job(fs, std, why):
+                src, probes = c20_api.build_negative_source(x, fs, std)
+                if not probes:
+                    return None
+                name = "c20_neg_%s_%s" % ("_".join(fs) if len(fs) <= 3 else "many", "std" if std else "nostd")
+                d = common.make_crate(name, src, features=tuple(fs) + (("std",) if std else ()), default_features=False)
+                api_meta[name] = {"probes": probes, "src": src, "dir": d}
+                return {"kind": "api-neg", "features": list(fs), "std": std, "test": None, "why": why, "name": name,
+                        "cmd": ["cargo", "check", "--manifest-path", os.path.join(d, "Cargo.toml"), "--offline",
+                                "--message-format=json"]}
 
-    # workers with private target dirs (cargo locks a target dir for the whole invocation)
-    from concurrent.futures import ThreadPoolExecutor
-    import queue
-    q = queue.Queue()
-    # tests last on few workers (they need the dev-dependencies built)
-    for j in sorted(jobs, key=lambda j: (j["kind"] == "test", j["features"])):
-        q.put(j)
-    results = []
+            def api_errors(r):
+                return c20_api.attribute(api_meta[r["name"]]["probes"],
+                                         [m for m in r["messages"] if m["file"] and m["file"].endswith("main.rs")])
+            # what holds under `full` (measured, with and without std); second round: the rest must be error-free
+            from concurrent.futures import ThreadPoolExecutor as _TP
+            with _TP(max_workers=2) as ex:
+                r1 = list(ex.map(lambda a: run_job(api_job(feats, a[0], None, "api-baseline", "_m"), a[1]), [(True, 0), (False, 1)]))
+            for r in r1:
+                api_base[r["std"]] = set(k for k in api_errors(r) if k is not None)
+                bad = [k for k in api_base[r["std"]] if not k.startswith("impl:")]
+                if bad or (r["rc"] != 0 and not api_base[r["std"]]):
+                    chk.violation("api:full", {"failing": bad, "std": r["std"], "stderr": r["stderr_tail"],
+                                               "main_rs": api_meta[r["name"]]["src"]},
+                                  "the API probe crate does not build under `full`%s: %s" % ("" if r["std"] else " without std", bad[:4]))
+            with _TP(max_workers=2) as ex:
+                r2 = list(ex.map(lambda a: run_job(api_job(feats, a[0], api_base[a[0]], "api-baseline", "_v"), a[1]), [(True, 0), (False, 1)]))
+            for r in r2:
+                if r["rc"] != 0:
+                    errs = api_errors(r)
+                    chk.violation("api:full", {"failing": sorted(str(k) for k in errs), "std": r["std"], "detail": list(errs.values())[:5],
+                                               "stderr": r["stderr_tail"][-600:]},
+                                  "the API probe crate (only probes that hold under `full`) does not build under `full`%s: %s"
+                                  % ("" if r["std"] else " without std", list(errs.items())[:3]))
+            chk.log("api baseline: %d / %d probes do not hold under full (std / no std), %.1fs" %
+                    (len(api_base.get(True, ())), len(api_base.get(False, ())), time.time() - t_api))
+            # configurations: those of the matrix's facade checks (singles, sampled no-std singles, sampled pairs) ...
+            seen_cfg = set()
+            for j in list(jobs):
+                if j["kind"] == "check":
+                    key = (tuple(j["features"]), j["std"])
+                    if key in seen_cfg or (thorough_phase and len(j["features"]) > 1 and len(seen_cfg) > 170):
+                        continue
+                    seen_cfg.add(key)
+                    jobs.append(api_job(j["features"], j["std"], api_base[j["std"]], "api-" + j["why"], ""))
+                    nj = neg_job(j["features"], j["std"], "apineg-" + j["why"])
+                    if nj is not None:
+                        jobs.append(nj)
+            # ... and the witness feature sets of refuted impl / trait-export pairs
+            for u in (x["exceptions"] if x is not None else []):
+                wit = sorted(w for w in u["witness"] if w in feats)
+                std = "std" in u["witness"]
+                if wit and (tuple(wit), std) not in seen_cfg and len(wit) <= 3:
+                    seen_cfg.add((tuple(wit), std))
+                    jobs.append(api_job(wit, std, api_base[std], "api-witness", ""))
+        jobs = [j for j in jobs if tuple(j["cmd"]) not in done_cmds]
+        done_cmds.update(tuple(j["cmd"]) for j in jobs)
+        chk.log("%d builds (%s)" % (len(jobs), "thorough" if thorough_phase else "quick"))
 
-    def worker(w):
-        out = []
-        while True:
-            try:
-                j = q.get_nowait()
-            except queue.Empty:
-                return out
-            out.append(run_job(j, w))
+        # baseline: warnings of the `full` build (toolchain drift is not a property of a feature subset)
+        base_jobs = [run_job({"kind": "check-impl", "features": ["full"], "std": True, "cmd": cargo_cmd("check-impl", ["full"], True)}, 0),
+                     run_job({"kind": "check", "features": ["full"], "std": True, "cmd": cargo_cmd("check", ["full"], True)}, 0)]
+        baseline = set()
+        for b in base_jobs:
+            if b["rc"] != 0:
+                chk.violation("build:full", {"cmd": " ".join(b["cmd"]), "stderr": b["stderr_tail"], "messages": b["messages"][:5]},
+                              "the `full` configuration itself does not build")
+            for m in b["messages"]:
+                baseline.add(msg_key(m))
+        chk.log("baseline: %d warnings under `full`" % len(baseline))
 
-    with ThreadPoolExecutor(max_workers=WORKERS) as ex:
-        for r in ex.map(worker, range(WORKERS)):
-            results.extend(r)
+        # regression crates: the real macro under ONE feature, on inputs that reach templates naming facade items
+        reg_results = []
+        if not replay:
+            for (name, rfeats, rstd, src, is_bin) in REGRESSION_CRATES:
+                t0 = time.time()
+                d = common.make_crate("c20_reg_" + name, src, features=tuple(rfeats) + (("std",) if rstd else ()),
+                                      default_features=False, bin=is_bin)
+                rc, out = common.cargo(d, ["check", "--quiet"], target_dir=os.path.join(TARGET, "reg"))
+                common.cleanup_scratch("c20_reg_" + name)
+                chk.count(("regression", name), True)
+                chk.bump("regression-crate")
+                reg_results.append({"name": name, "features": rfeats, "std": rstd, "rc": rc, "wall_s": round(time.time() - t0, 1)})
+                if rc != 0:
+                    chk.violation("error:regression:" + name,
+                                  {"features": rfeats, "std": rstd, "main_rs": src, "output": out[-2500:],
+                                   "cmd": "cargo check in a crate with derive_more = { path = \"/repo\", default-features = false, "
+                                          "features = %s }" % (list(rfeats) + (["std"] if rstd else []))},
+                                  "a crate using only feature(s) %s does not build: %s" % (rfeats, out[-300:]))
 
-    n_fail = 0
-    warning_only = []
-    for r in results:
-        fs = "+".join(r["features"])
-        key = (r["kind"], fs, r["std"], r["test"])
-        chk.count(key, True)
-        chk.bump("%s:%s" % (r["kind"], r["why"]))
-        new = [m for m in r["messages"] if msg_key(m) not in baseline]
-        errs = [m for m in new if m["level"] == "error"]
-        warns = [m for m in new if m["level"] == "warning"]
-        cmdline = " ".join(r["cmd"])
-        rep = {"cmd": r["cmd"], "cmdline": "CARGO_TARGET_DIR=%s %s" % (os.path.join(TARGET, "w0"), cmdline),
-               "kind": r["kind"], "features": r["features"], "std": r["std"], "test": r["test"], "rc": r["rc"]}
-        if r["rc"] != 0:
-            n_fail += 1
-            what = "test" if r["kind"] == "test" and not errs else "error"
-            pk = (errs[0]["package"] if errs else "derive_more")
-            chk.violation("%s:%s:%s%s%s" % (what, pk, fs, "" if r["std"] else ":nostd", (":" + r["test"]) if r["test"] else ""),
-                          dict(rep, messages=errs[:6], stderr=r["stderr_tail"], stdout=r["stdout_tail"]),
-                          "`%s` fails (rc=%d): %s" % (cmdline, r["rc"], (errs[0]["text"] if errs else r["stdout_tail"][-200:] or r["stderr_tail"][-200:])))
-        elif warns:
-            # warnings are not build errors: an observation, not a violation of the property text
-            warning_only.append({"cmd": cmdline, "features": r["features"], "std": r["std"], "n_warnings": len(warns),
-                                 "packages": sorted(set(m["package"] for m in warns)),
-                                 "lints": sorted(set(str(m["code"]) for m in warns)),
-                                 "first": "%s at %s:%s" % (warns[0]["text"], warns[0]["file"], warns[0]["line"])})
-            chk.bump("warning-only:" + fs)
-        if len(chk.cov["samples"]) < 10:
-            chk.sample({"cmd": cmdline, "rc": r["rc"], "new_warnings": len(warns), "wall_s": r["wall"]})
-    chk.cov["traces_validated_against_impl"] = len(results)
+        # workers with private target dirs (cargo locks a target dir for the whole invocation)
+        from concurrent.futures import ThreadPoolExecutor
+        import queue
+        q = queue.Queue()
+        # tests last on few workers (they need the dev-dependencies built)
+        for j in sorted(jobs, key=lambda j: (j["kind"] == "test", j["features"])):
+            q.put(j)
+        results = []
 
+        def worker(w):
+            out = []
+            while True:
+                try:
+                    j = q.get_nowait()
+                except queue.Empty:
+                    return out
+                out.append(run_job(j, w))
+
+        with ThreadPoolExecutor(max_workers=WORKERS) as ex:
+            for r in ex.map(worker, range(WORKERS)):
+                results.extend(r)
+
+        n_fail = 0
+        n_api_probes = 0
+        warning_only = []
+        for r in results:
+            fs = "+".join(r["features"])
+            key = (r["kind"], fs, r["std"], r["test"])
+            chk.count(key, True)
+            chk.bump("%s:%s" % (r["kind"], r["why"]))
+            new = [m for m in r["messages"] if msg_key(m) not in baseline]
+            errs = [m for m in new if m["level"] == "error"]
+            warns = [m for m in new if m["level"] == "warning"]
+            cmdline = " ".join(r["cmd"])
+            rep = {"cmd": r["cmd"], "cmdline": "CARGO_TARGET_DIR=%s %s" % (os.path.join(TARGET, "w0"), cmdline),
+                   "kind": r["kind"], "features": r["features"], "std": r["std"], "test": r["test"], "rc": r["rc"]}
+            if r["kind"] == "api-neg":
+                probes_ = api_meta[r["name"]]["probes"]
+                msgs_ = [m for m in r["messages"] if m["file"] and m["file"].endswith("main.rs")]
+                n_api_probes += len(probes_)
+                resolved, stray = c20_api.unexpected_names(probes_, msgs_)
+                built_dep = any("unresolved import" in (m["text"] or "") or m.get("code") in ("E0432", "E0433") for m in msgs_)
+                if r["rc"] != 0 and not msgs_:
+                    chk.violation("api:unattributed:" + fs, {"features": r["features"], "std": r["std"], "stderr": r["stderr_tail"]},
+                                  "the absent-names probe crate for %s did not get as far as name resolution: %s" % (fs, r["stderr_tail"][-200:]))
+                    n_fail += 1
+                    continue
+                if resolved or stray:
+                    n_fail += 1
+                cfg_txt = "%s%s" % (fs, "+std" if r["std"] else " (no std)")
+                for p_ in resolved:
+                    chk.violation("api:" + p_["key"],
+                                  {"features": r["features"], "std": r["std"], "name": p_["subject"],
+                                   "main_rs": api_meta[r["name"]]["src"], "line": p_["lo"],
+                                   "expected": "does not resolve: the facade's feature table switches its feature on only with "
+                                               "another feature",
+                                   "cmd": "cargo check in a crate with derive_more = { path = \"/repo\", default-features = false, "
+                                          "features = %s } and this src/main.rs: line %d must be an error" %
+                                          (r["features"] + (["std"] if r["std"] else []), p_["lo"])},
+                                  "with exactly the features %s the name `%s` resolves although no enabled feature exports it"
+                                  % (cfg_txt, p_["subject"]))
+                for m_ in stray[:3]:
+                    chk.violation("api:unattributed:" + fs, {"features": r["features"], "std": r["std"], "error": m_},
+                                  "unexpected error in the absent-names probe crate for %s: %s" % (cfg_txt, m_["text"][:200]))
+                continue
+            if r["kind"] == "api":
+                errs_by = c20_api.attribute(api_meta[r["name"]]["probes"],
+                                            [m for m in r["messages"] if m["file"] and m["file"].endswith("main.rs")])
+                n_api_probes += len(api_meta[r["name"]]["probes"])
+                if r["rc"] != 0:
+                    n_fail += 1
+                    if not errs_by:
+                        errs_by = {None: (r["stderr_tail"] or "")[-300:]}
+                    for key_, text in errs_by.items():
+                        cfg_txt = "%s%s" % (fs, "+std" if r["std"] else " (no std)")
+                        chk.violation("api:%s" % (key_ if key_ is not None else "unattributed:" + fs),
+                                      {"features": r["features"], "std": r["std"], "probe": key_, "error": text,
+                                       "main_rs": api_meta[r["name"]]["src"],
+                                       "cmd": "cargo check in a crate with derive_more = { path = \"/repo\", default-features = false, "
+                                              "features = %s } and this src/main.rs" % (r["features"] + (["std"] if r["std"] else []))},
+                                      "with exactly the features %s a consumer crate fails on probe `%s` (it holds under `full`): %s"
+                                      % (cfg_txt, key_, text[:200]))
+                continue
+            if r["rc"] != 0:
+                n_fail += 1
+                what = "test" if r["kind"] == "test" and not errs else "error"
+                pk = (errs[0]["package"] if errs else "derive_more")
+                chk.violation("%s:%s:%s%s%s" % (what, pk, fs, "" if r["std"] else ":nostd", (":" + r["test"]) if r["test"] else ""),
+                              dict(rep, messages=errs[:6], stderr=r["stderr_tail"], stdout=r["stdout_tail"]),
+                              "`%s` fails (rc=%d): %s" % (cmdline, r["rc"], (errs[0]["text"] if errs else r["stdout_tail"][-200:] or r["stderr_tail"][-200:])))
+            elif warns:
+                # warnings are not build errors: an observation, not a violation of the property text
+                warning_only.append({"cmd": cmdline, "features": r["features"], "std": r["std"], "n_warnings": len(warns),
+                                     "packages": sorted(set(m["package"] for m in warns)),
+                                     "lints": sorted(set(str(m["code"]) for m in warns)),
+                                     "first": "%s at %s:%s" % (warns[0]["text"], warns[0]["file"], warns[0]["line"])})
+                chk.bump("warning-only:" + fs)
+            if len(chk.cov["samples"]) < 10:
+                chk.sample({"cmd": cmdline, "rc": r["rc"], "new_warnings": len(warns), "wall_s": r["wall"]})
+        chk.cov["traces_validated_against_impl"] = len(results)
+
+        tot["results"] += results; tot["n_fail"] += n_fail; tot["n_api"] += n_api_probes
+        tot["warning_only"] += warning_only; tot["reg"] += reg_results
+        if (not thorough_phase and not replay and getattr(chk, "proof_broken", False)
+                and not [v for v in chk.violations if not v[3]]):
+            chk.log("proof obligation broken and no failing input in the %s matrix: widening to the thorough matrix" % tier)
+            phases.append(True)
+    results, n_fail, n_api_probes = tot["results"], tot["n_fail"], tot["n_api"]
+    warning_only, reg_results = tot["warning_only"], tot["reg"]
+    for nm in api_meta:
+        common.cleanup_scratch(nm)
     git_after = common.sh(["git", "-C", common.REPO, "status", "--short"])[1]
     if git_after != git_before:
         chk.violation("repo-modified", {"before": git_before, "after": git_after},
@@ -513,6 +664,8 @@ def run(tier, seed, replay):
              "warning_only_note": "observations, not violations: warnings that the `full` build does not have; they would be "
                                   "fatal only under an extra RUSTFLAGS=-D warnings (upstream CI's setting)",
              "regression_crates": reg_results,
+             "api_probes_checked": n_api_probes,
+             "api_probes_not_holding_under_full": {"std": sorted(api_base.get(True, ())), "no_std": sorted(api_base.get(False, ()))},
              "build_wall_total_s": round(sum(r["wall"] for r in results), 1),
              "refuted_pairs": refuted,
              "translator_controls": [{"mutation": n, "expected": e, "got": g, "detail": d} for n, e, g, d in controls]}
